@@ -409,4 +409,108 @@ theorem loop2_char (ext : Bool) (tk : List (Key × Bool)) : ∀ (S : List Key), 
             exact hcond (fun kc' hin => hall kc' (List.mem_cons_of_mem _ hin))
 
 
+
+/-! ### [[GetOwnProperty]]: pieces of `gopd_eq_spec` -/
+
+/-- the value proxyGetOwnPropertyDescriptor returns once every check has passed (proxy.go:554-558) -/
+def gopdTail (tvp : Desc → VProp) (d : Desc) : TProp :=
+  let r := d.complete
+  if r.writable == .tru && r.configurable == .tru && r.enumerable == .tru then
+    match r.value with
+    | some v => .plain v
+    | none => .absent
+  else .vp (tvp d)
+
+theorem complete_toPD (d : Desc) (h : d.Valid) : d.complete.toPD = d.toPD.complete := by
+  rcases d with ⟨v, w, c, e, g, s⟩
+  obtain ⟨_, _, hx⟩ := h
+  cases v <;> cases w <;> cases c <;> cases e <;> cases g <;> cases s <;>
+    simp_all [Desc.complete, Desc.toPD, PD.complete, PD.isGenericDescriptor, PD.isAccessorDescriptor, PD.isDataDescriptor, Flag.toOpt, asObj]
+
+theorem complete_valid (d : Desc) (h : d.Valid) : d.complete.Valid := by
+  rcases d with ⟨v, w, c, e, g, s⟩
+  obtain ⟨hg, hs, hx⟩ := h
+  cases v <;> cases w <;> cases c <;> cases e <;> cases g <;> cases s <;>
+    simp_all [Desc.complete, Desc.Valid, accessorFieldValid]
+
+theorem gopdTail_toCur (d : Desc) (h : d.Valid) :
+    (gopdTail toValuePropFixed d).toCur = some d.toPD.complete.toCur := by
+  rcases d with ⟨v, w, c, e, g, s⟩
+  obtain ⟨hg, hs, hx⟩ := h
+  rcases accessorField_cases hg with hg | hg | ⟨og, hg⟩ <;>
+  rcases accessorField_cases hs with hs | hs | ⟨os, hs⟩ <;>
+  subst hg <;> subst hs <;>
+  cases v <;> cases w <;> cases c <;> cases e <;>
+    simp_all [gopdTail, Desc.complete, Desc.toPD, PD.complete, PD.toCur, PD.isGenericDescriptor, PD.isAccessorDescriptor,
+      PD.isDataDescriptor, Flag.toOpt, Flag.bool, toValuePropFixed, toValuePropWith, TProp.toCur, propToValueProp,
+      VProp.toCur, asObj]
+
+
+theorem gopdCheckWith_obj (compat : CompatFn) (tvp : Desc → VProp) (prop : TProp) (ext : Bool) (d : Desc) :
+    gopdCheckWith compat tvp prop ext (.obj d) =
+      if !compat ext d.complete (propToValueProp prop) then .typeError
+      else if d.complete.configurable == .fals then
+        match propToValueProp prop with
+        | none => .typeError
+        | some td =>
+          if td.configurable then .typeError
+          else if d.complete.writable == .fals && td.writable then .typeError
+          else .ok (gopdTail tvp d)
+      else .ok (gopdTail tvp d) := by
+  simp only [gopdCheckWith, gopdTail]
+  generalize d.complete = R
+  cases hv : R.value <;>
+    cases hf : (R.writable == Flag.tru && R.configurable == Flag.tru && R.enumerable == Flag.tru) <;>
+    simp <;> (cases propToValueProp prop <;> rfl)
+
+theorem flag_toOpt_false (f : Flag) : (f.toOpt == some false) = (f == .fals) := by cases f <;> rfl
+
+theorem gopd_core (R : Desc) (T : TProp) (td : Option VProp)
+    (e2 : T.toCur = some R.toPD.toCur) (b : Bool) : (∀ p, td = some p → p.WF) →
+    (match (if !b then (Out.typeError : Out TProp)
+            else if R.configurable == .fals then
+              match td with
+              | none => .typeError
+              | some td =>
+                if td.configurable then .typeError
+                else if R.writable == .fals && td.writable then .typeError
+                else .ok T
+            else .ok T) with
+      | .ok r => Out.ok r.toCur
+      | .typeError => .typeError) =
+    (if !b then (Out.typeError : Out (Option Cur))
+     else if R.configurable == .fals then
+       match td.map VProp.toCur with
+       | none => .typeError
+       | some td =>
+         if td.configurable then .typeError
+         else if R.writable == .fals then
+           match td with
+           | .data _ true _ _ => .typeError
+           | _ => .ok (some R.toPD.toCur)
+         else .ok (some R.toPD.toCur)
+     else .ok (some R.toPD.toCur)) := by
+  intro hwf
+  cases b
+  · simp
+  · cases td with
+    | none => cases R.configurable <;> simp [e2]
+    | some p =>
+      have hw := hwf p rfl
+      clear hwf
+      rcases p with ⟨cv, cw, cc, ce, ca, cg, cs⟩
+      cases ca
+      · simp [VProp.WF] at hw
+        obtain ⟨hv, hg, hs⟩ := hw
+        subst hg hs
+        cases cv with
+        | none => simp at hv
+        | some v =>
+          cases R.configurable <;> cases R.writable <;> cases cc <;> cases cw <;>
+            simp [e2, VProp.toCur, Cur.configurable]
+      · simp [VProp.WF] at hw
+        obtain ⟨hv, hw'⟩ := hw
+        subst hv hw'
+        cases R.configurable <;> cases R.writable <;> cases cc <;> simp [e2, VProp.toCur, Cur.configurable]
+
 end GojaModel.C11
